@@ -412,13 +412,16 @@ fn reference_dir(trees: &[Flat], dir: &str, opts: &MergeOptions, exp: &mut Expec
                         exp.emptied_dirs += 1;
                         exp.absent.insert(p);
                     }
-                } else if any_dir {
-                    exp.mixed_conflicts += 1;
-                    exp.conflicts.insert(p, terms);
                 } else if let Some(l) = merge_files(&terms, opts, exp) {
+                    // (directory terms that cancel each other do not prevent the file merge)
                     exp.resolved.insert(p, l);
                 } else {
-                    if terms.iter().any(|t| !matches!(t, Some(RV::Leaf(Leaf::File { .. })))) {
+                    if any_dir {
+                        exp.mixed_conflicts += 1;
+                    } else if terms
+                        .iter()
+                        .any(|t| !matches!(t, Some(RV::Leaf(Leaf::File { .. }))))
+                    {
                         exp.non_file_conflicts += 1;
                     }
                     exp.conflicts.insert(p, terms);
@@ -663,7 +666,9 @@ type Fail = (String, String);
 /// A panic inside `MergedTree::merge`. jj's own idempotence assertion in `resolve()` ("the last
 /// simplification doesn't enable further automatic resolutions") gets its own signature.
 fn panic_failure(e: String) -> Fail {
-    if e.contains("merged_tree.rs") && e.contains("left == right") {
+    // (the two sides of that assertion are tree-id merges; the other assert_eq!s of
+    // merged_tree.rs compare numbers of sides)
+    if e.contains("merged_tree.rs") && e.contains("left == right") && e.contains("TreeId(") {
         (
             "C07/MergedTree::merge/remerge-after-simplify-differs".to_string(),
             format!(
